@@ -14,7 +14,7 @@
 -/
 import PolyVerif.Model.MeshClasses
 import PolyVerif.Gen.C01Classes
-import PolyVerif.Lemmas.MeshHeap
+import PolyVerif.Lemmas.MeshHeapFresh
 
 namespace PolyVerif
 namespace C01
@@ -40,6 +40,475 @@ theorem classification_covers : Gen.C01Classes.table.length = Gen.C01Classes.fun
 /-- no classified function has an `unknown` source anywhere -/
 theorem classification_no_unknown : ∀ s ∈ Gen.C01Classes.table, notOneOperation.contains s.name = false →
     ∀ c ∈ s.comps, c.obj.contains .unknown = false ∧ c.ent.contains .unknown = false := by decide
+
+/-- closed witnesses that the comparison discriminates: an `Append` whose indices are the receiver's slice (what
+    `append(m.indices, …)` amounts to when the extractor can see through it; otherwise it reports `unknown`) or are `unknown`
+    does not fit the class `append`; a `SetIndices` that hands back the receiver's indices does not fit `setIndices`;
+    a weld that keeps the receiver's materials does not fit `rebuild drop` -/
+theorem aliasing_summaries_rejected :
+    (⟨"Mesh.Append", 2, [shared 0, ⟨[.recv 0 1], []⟩, ⟨[.fresh], []⟩, ⟨[.fresh], [.fresh]⟩, ⟨[.fresh], [.fresh]⟩,
+        ⟨[.fresh], [.fresh]⟩, ⟨[.fresh], [.fresh]⟩]⟩ : FnSummary).fits .append = false ∧
+    (⟨"Mesh.Append", 2, [shared 0, ⟨[.unknown], []⟩, ⟨[.fresh], []⟩, ⟨[.fresh], [.fresh]⟩, ⟨[.fresh], [.fresh]⟩,
+        ⟨[.fresh], [.fresh]⟩, ⟨[.fresh], [.fresh]⟩]⟩ : FnSummary).fits .append = false ∧
+    (⟨"Mesh.SetIndices", 1, (List.range 7).map shared⟩ : FnSummary).fits .setIndices = false ∧
+    (⟨"Mesh.WeldByFloat3Attribute", 1, [shared 0, ⟨[.fresh], []⟩, shared 2, ⟨[.fresh], [.fresh]⟩, ⟨[.fresh], [.fresh]⟩,
+        ⟨[.fresh], [.fresh]⟩, ⟨[.fresh], [.fresh]⟩]⟩ : FnSummary).fits (.rebuild .drop) = false := by decide
+
+/-! ### what the model's operation of each class does with memory -/
+
+section realises
+set_option linter.unusedSectionVars false
+variable {κ α : Type} [DecidableEq κ]
+
+/-- the class (and the pool positions of the mesh parameters, receiver first) of a model operation;
+    `shareMaterials` is the composition `m.SetMaterials(src.Materials())` of two Go functions and `appendOld` is not in the tree -/
+def opClass : Op κ α → Option (Cls × List Nat)
+  | .newMesh .. => some (.newMesh, [])
+  | .setIndices m .. => some (.setIndices, [m])
+  | .setMaterials m .. => some (.setMaterials, [m])
+  | .toPointCloud m .. => some (.toPointCloud, [m])
+  | .clearAttrs m => some (.clearAttrs, [m])
+  | .setData m k _ => some (.setData k, [m])
+  | .setAttr m k .. => some (.setAttr k, [m])
+  | .copyAttr m src k _ => some (.copyAttr k, [m, src])
+  | .rebuild m _ _ _ _ mm => some (.rebuild mm, [m])
+  | .readOnly m => some (.readOnly, [m])
+  | .append m o .. => some (.append, [m, o])
+  | .shareMaterials .. => none
+  | .appendOld .. => none
+
+/-- the map of attribute kind `k` (0..3 = v1Data..v4Data) of a mesh -/
+def kindOf (a : MeshRep) (k : Nat) : Option Nat := (a.maps[k]?).getD none
+
+def specObj (spec : List Comp) (i : Nat) : List Src := ((spec[i]?).map Comp.obj).getD []
+def specEnt (spec : List Comp) (i : Nat) : List Src := ((spec[i]?).map Comp.ent).getD []
+
+def TopoFrom (args : List MeshRep) (t : Nat) : Src → Prop
+  | .recv i f => f = 0 ∧ ∃ a, args[i]? = some a ∧ t = a.topo
+  | .val => True
+  | _ => False
+
+/-- the slice (component `fld`: 1 indices, 2 materials) comes from source `x`: it IS the argument's slice header,
+    or it points into an array allocated by this operation (or has no cell at all) -/
+def SliceFrom (h : Heap κ α) (args : List MeshRep) (fld : Nat) (s : Slice) : Src → Prop
+  | .recv i f => f = fld ∧ ∃ a, args[i]? = some a ∧ s = (if fld = 1 then a.indices else a.materials)
+  | .fresh => Fresh h.arrays.length s
+  | .nil => s.cap = 0
+  | _ => False
+
+/-- an entry of a new map comes from source `x`: its slice header is one stored in the argument's map of that kind,
+    or points into an array allocated by this operation -/
+def EntFrom (h : Heap κ α) (args : List MeshRep) (e : κ × Slice) : Src → Prop
+  | .elem i f => ∃ a, args[i]? = some a ∧ 3 ≤ f ∧ ∃ e' ∈ h.mapEntries (kindOf a (f - 3)), e'.2 = e.2
+  | .fresh => Fresh h.arrays.length e.2
+  | .nil => e.2.cap = 0
+  | _ => False
+
+/-- the map of kind `k` comes from source `x`: it IS the argument's map object, it is the nil map, or it is a map
+    object allocated by this operation all of whose entries come from the sources `ent` -/
+def MapFrom (h h' : Heap κ α) (args : List MeshRep) (k : Nat) (ent : List Src) (m : Option Nat) : Src → Prop
+  | .recv i f => f = 3 + k ∧ ∃ a, args[i]? = some a ∧ m = kindOf a k
+  | .nil => m = none
+  | .fresh => ∃ id, m = some id ∧ h.maps.length ≤ id ∧ ∀ e ∈ h'.mapEntries (some id), ∃ x ∈ ent, EntFrom h args e x
+  | _ => False
+
+/-- mesh `r` in heap `h'` has the sharing summary `spec` relative to the argument meshes `args` in heap `h` -/
+def Realises (spec : List Comp) (h : Heap κ α) (args : List MeshRep) (h' : Heap κ α) (r : MeshRep) : Prop :=
+  (∃ x ∈ specObj spec 0, TopoFrom args r.topo x) ∧
+  (∃ x ∈ specObj spec 1, SliceFrom h args 1 r.indices x) ∧
+  (∃ x ∈ specObj spec 2, SliceFrom h args 2 r.materials x) ∧
+  ∀ k, k < 4 → ∃ x ∈ specObj spec (3 + k), MapFrom h h' args k (specEnt spec (3 + k)) (kindOf r k) x
+
+theorem sharedExcept_get (f : Nat) (c : Comp) (g : Nat) (hg : g < 7) :
+    (sharedExcept f c)[g]? = some (if g = f then c else shared g) := by
+  simp [sharedExcept, List.getElem?_map, List.getElem?_range hg]
+
+theorem kindOf_setKind (maps : List (Option Nat)) (r : MeshRep) (k id k' : Nat) (hk : k < maps.length) :
+    kindOf { r with maps := setKind maps k id } k' = if k' = k then some id else (maps[k']?).getD none := by
+  simp only [kindOf, setKind, List.getElem?_set]
+  by_cases h : k = k'
+  · subst h; simp [hk]
+  · have : ¬ k' = k := fun e => h e.symm
+    simp [h, this]
+
+theorem specObj_sharedExcept (f : Nat) (c : Comp) (g : Nat) (hg : g < 7) :
+    specObj (sharedExcept f c) g = if g = f then c.obj else [.recv 0 g] := by
+  simp only [specObj, sharedExcept_get f c g hg]; split <;> simp [shared]
+
+theorem specEnt_sharedExcept (f : Nat) (c : Comp) (g : Nat) (hg : g < 7) :
+    specEnt (sharedExcept f c) g = if g = f then c.ent else [] := by
+  simp only [specEnt, sharedExcept_get f c g hg]; split <;> simp [shared]
+
+theorem map_shared (h h' : Heap κ α) (a : MeshRep) (rest : List MeshRep) (k : Nat) (ent : List Src) :
+    MapFrom h h' (a :: rest) k ent (kindOf a k) (.recv 0 (3 + k)) := ⟨rfl, a, rfl, rfl⟩
+
+/-- everything shared with the receiver except component `f`, which comes from where `c` says -/
+theorem realises_sharedExcept (f : Nat) (c : Comp) (h h' : Heap κ α) (a : MeshRep) (rest : List MeshRep) (r : MeshRep)
+    (h0 : r.topo = a.topo)
+    (h1 : if f = 1 then ∃ x ∈ c.obj, SliceFrom h (a :: rest) 1 r.indices x else r.indices = a.indices)
+    (h2 : if f = 2 then ∃ x ∈ c.obj, SliceFrom h (a :: rest) 2 r.materials x else r.materials = a.materials)
+    (h3 : ∀ k, k < 4 → if 3 + k = f then ∃ x ∈ c.obj, MapFrom h h' (a :: rest) k c.ent (kindOf r k) x
+        else kindOf r k = kindOf a k) (hf : f ≠ 0) :
+    Realises (sharedExcept f c) h (a :: rest) h' r := by
+  refine ⟨?_, ?_, ?_, ?_⟩
+  · rw [specObj_sharedExcept f c 0 (by omega), if_neg (fun e => hf e.symm)]
+    exact ⟨_, List.mem_singleton.mpr rfl, rfl, a, rfl, h0⟩
+  · rw [specObj_sharedExcept f c 1 (by omega)]
+    by_cases e : f = 1
+    · rw [if_pos e.symm]; rw [if_pos e] at h1; exact h1
+    · rw [if_neg (fun x => e x.symm)]; rw [if_neg e] at h1
+      exact ⟨_, List.mem_singleton.mpr rfl, rfl, a, rfl, by simp [h1]⟩
+  · rw [specObj_sharedExcept f c 2 (by omega)]
+    by_cases e : f = 2
+    · rw [if_pos e.symm]; rw [if_pos e] at h2; exact h2
+    · rw [if_neg (fun x => e x.symm)]; rw [if_neg e] at h2
+      exact ⟨_, List.mem_singleton.mpr rfl, rfl, a, rfl, by simp [h2]⟩
+  · intro k hk
+    rw [specObj_sharedExcept f c (3 + k) (by omega), specEnt_sharedExcept f c (3 + k) (by omega)]
+    have := h3 k hk
+    by_cases e : 3 + k = f
+    · rw [if_pos e] at this ⊢; rw [if_pos e]; exact this
+    · rw [if_neg e] at this ⊢; rw [if_neg e]
+      exact ⟨_, List.mem_singleton.mpr rfl, by rw [this]; exact map_shared h h' a rest k []⟩
+
+theorem readOnly_spec_eq : Cls.readOnly.spec = sharedExcept 7 ⟨[], []⟩ := by decide
+
+/-- a mesh realises "everything shared with the receiver" relative to itself -/
+theorem realises_self (h h' : Heap κ α) (a : MeshRep) (rest : List MeshRep) :
+    Realises Cls.readOnly.spec h (a :: rest) h' a := by
+  rw [readOnly_spec_eq]
+  apply realises_sharedExcept <;> first | rfl | (intro k hk; rw [if_neg (by omega)]) | simp
+
+theorem real_setIndices (E : Env α) (s : State κ α) (m : Nat) (idx : List α) (sp : Nat) (h' : Heap κ α) (rs : List MeshRep)
+    (ha : (Op.setIndices m idx sp : Op κ α).apply E s = some (h', rs)) :
+    ∃ a, s.pool[m]? = some a ∧ ∃ r, rs = [r] ∧ Realises (Cls.setIndices).spec s.heap [a] h' r := by
+  simp only [Op.apply, Option.bind_eq_bind, Option.bind_eq_some_iff, Option.pure_def, Option.some.injEq, Prod.mk.injEq] at ha
+  obtain ⟨a, hr, rfl, rfl⟩ := ha
+  refine ⟨a, hr, _, rfl, ?_⟩
+  apply realises_sharedExcept <;> simp [SliceFrom, allocSlice, Fresh, kindOf]
+  intros; omega
+
+theorem real_setMaterials (E : Env α) (s : State κ α) (m : Nat) (idx : List α) (sp : Nat) (h' : Heap κ α) (rs : List MeshRep)
+    (ha : (Op.setMaterials m idx sp : Op κ α).apply E s = some (h', rs)) :
+    ∃ a, s.pool[m]? = some a ∧ ∃ r, rs = [r] ∧ Realises (Cls.setMaterials).spec s.heap [a] h' r := by
+  simp only [Op.apply, Option.bind_eq_bind, Option.bind_eq_some_iff, Option.pure_def, Option.some.injEq, Prod.mk.injEq] at ha
+  obtain ⟨a, hr, rfl, rfl⟩ := ha
+  refine ⟨a, hr, _, rfl, ?_⟩
+  apply realises_sharedExcept <;> simp [SliceFrom, allocSlice, Fresh, kindOf]
+  intros; omega
+
+theorem real_clearAttrs (E : Env α) (s : State κ α) (m : Nat) (h' : Heap κ α) (rs : List MeshRep)
+    (ha : (Op.clearAttrs m : Op κ α).apply E s = some (h', rs)) :
+    ∃ a, s.pool[m]? = some a ∧ ∃ r, rs = [r] ∧ Realises (Cls.clearAttrs).spec s.heap [a] h' r := by
+  simp only [Op.apply, Option.bind_eq_bind, Option.bind_eq_some_iff, Option.pure_def, Option.some.injEq, Prod.mk.injEq] at ha
+  obtain ⟨a, hr, rfl, rfl⟩ := ha
+  refine ⟨a, hr, _, rfl, ?_, ?_, ?_, ?_⟩
+  · exact ⟨.recv 0 0, by simp [specObj, Cls.spec, shared], rfl, a, rfl, rfl⟩
+  · exact ⟨.recv 0 1, by simp [specObj, Cls.spec, shared], rfl, a, rfl, rfl⟩
+  · exact ⟨.recv 0 2, by simp [specObj, Cls.spec, shared], rfl, a, rfl, rfl⟩
+  · intro k hk
+    refine ⟨.nil, ?_, ?_⟩
+    · have : k = 0 ∨ k = 1 ∨ k = 2 ∨ k = 3 := by omega
+      rcases this with rfl | rfl | rfl | rfl <;> simp [specObj, Cls.spec]
+    · simp only [MapFrom, kindOf, List.getElem?_map]
+      cases a.maps[k]? <;> rfl
+
+theorem real_toPointCloud (E : Env α) (s : State κ α) (m pt n : Nat) (h' : Heap κ α) (rs : List MeshRep)
+    (ha : (Op.toPointCloud m pt n : Op κ α).apply E s = some (h', rs)) :
+    ∃ a, s.pool[m]? = some a ∧ ∃ r, rs = [r] ∧ Realises (Cls.toPointCloud).spec s.heap [a] h' r := by
+  simp only [Op.apply, Option.bind_eq_bind, Option.bind_eq_some_iff, Option.pure_def] at ha
+  obtain ⟨a, hr, ha⟩ := ha
+  refine ⟨a, hr, ?_⟩
+  have hm : ∀ (r : MeshRep), r.maps = a.maps → ∀ k, k < 4 → ∃ x ∈ specObj Cls.toPointCloud.spec (3 + k),
+      MapFrom s.heap h' [a] k (specEnt Cls.toPointCloud.spec (3 + k)) (kindOf r k) x := by
+    intro r er k hk
+    refine ⟨.recv 0 (3 + k), ?_, rfl, a, rfl, by simp [kindOf, er]⟩
+    have : k = 0 ∨ k = 1 ∨ k = 2 ∨ k = 3 := by omega
+    rcases this with rfl | rfl | rfl | rfl <;> simp [specObj, Cls.spec, shared]
+  split at ha
+  · simp only [Option.some.injEq, Prod.mk.injEq] at ha
+    obtain ⟨rfl, rfl⟩ := ha
+    refine ⟨_, rfl, ?_, ?_, ?_, hm a rfl⟩
+    · exact ⟨.recv 0 0, by simp [specObj, Cls.spec], rfl, a, rfl, rfl⟩
+    · exact ⟨.recv 0 1, by simp [specObj, Cls.spec], rfl, a, rfl, rfl⟩
+    · exact ⟨.recv 0 2, by simp [specObj, Cls.spec, shared], rfl, a, rfl, rfl⟩
+  · simp only [Option.some.injEq, Prod.mk.injEq] at ha
+    obtain ⟨rfl, rfl⟩ := ha
+    refine ⟨_, rfl, ?_, ?_, ?_, hm _ rfl⟩
+    · exact ⟨.val, by simp [specObj, Cls.spec], trivial⟩
+    · exact ⟨.fresh, by simp [specObj, Cls.spec], Or.inl (by simp [allocSlice])⟩
+    · exact ⟨.recv 0 2, by simp [specObj, Cls.spec, shared], rfl, a, rfl, rfl⟩
+
+/-- reading the entries of a map object just allocated -/
+theorem mapEntries_allocMap (h : Heap κ α) (es : List (κ × Slice)) :
+    (h.allocMap es).1.mapEntries (some (h.allocMap es).2) = es := by
+  simp [Heap.mapEntries, Heap.allocMap]
+
+theorem fresh_of_freshMap {base mbase : Nat} {h h' : Heap κ α} {args : List MeshRep} {k : Nat} {m : Option Nat} {ent : List Src}
+    (hb : base = h.arrays.length) (hm : mbase = h.maps.length) (he : Src.fresh ∈ ent) (fm : FreshMap base mbase h' m) :
+    MapFrom h h' args k ent m .fresh := by
+  obtain ⟨id, rfl, h1, _, h3⟩ := fm
+  subst hb hm
+  exact ⟨id, rfl, h1, fun e he' => ⟨.fresh, he, h3 e he'⟩⟩
+
+theorem real_setData (E : Env α) (s : State κ α) (m k : Nat) (es : List (κ × List α × Nat)) (h' : Heap κ α) (rs : List MeshRep)
+    (ha : (Op.setData m k es : Op κ α).apply E s = some (h', rs)) :
+    ∃ a, s.pool[m]? = some a ∧ ∃ r, rs = [r] ∧ (k < a.maps.length → Realises (Cls.setData k).spec s.heap [a] h' r) := by
+  simp only [Op.apply, Option.bind_eq_bind, Option.bind_eq_some_iff, Option.pure_def, Option.some.injEq, Prod.mk.injEq] at ha
+  obtain ⟨a, hr, rfl, rfl⟩ := ha
+  refine ⟨a, hr, _, rfl, fun hk => ?_⟩
+  apply realises_sharedExcept (f := 3 + k) <;> try (first | rfl | (rw [if_neg (by omega)]) | omega)
+  intro k' hk'
+  rw [kindOf_setKind a.maps a k _ k' hk]
+  by_cases e : k' = k
+  · subst e
+    rw [if_pos rfl, if_pos rfl]
+    exact ⟨.fresh, by simp, fresh_of_freshMap rfl rfl (by simp) (allocMapOf_fresh E es (Nat.le_refl _))⟩
+  · rw [if_neg (by omega), if_neg e]; rfl
+
+theorem real_setAttr (E : Env α) (s : State κ α) (m k : Nat) (name : κ) (data : List α) (sp : Nat) (h' : Heap κ α) (rs : List MeshRep)
+    (ha : (Op.setAttr m k name data sp : Op κ α).apply E s = some (h', rs)) :
+    ∃ a, s.pool[m]? = some a ∧ ∃ r, rs = [r] ∧ (k < a.maps.length → Realises (Cls.setAttr k).spec s.heap [a] h' r) := by
+  simp only [Op.apply, Option.bind_eq_bind, Option.bind_eq_some_iff, Option.pure_def, Option.some.injEq, Prod.mk.injEq] at ha
+  obtain ⟨a, hr, rfl, rfl⟩ := ha
+  refine ⟨a, hr, _, rfl, fun hk => ?_⟩
+  apply realises_sharedExcept (f := 3 + k) <;> try (first | rfl | (rw [if_neg (by omega)]) | omega)
+  intro k' hk'
+  rw [kindOf_setKind a.maps a k _ k' hk]
+  by_cases e : k' = k
+  · subst e
+    rw [if_pos rfl, if_pos rfl]
+    refine ⟨.fresh, by simp, _, rfl, by simp [Heap.allocMap, allocSlice, Heap.alloc], ?_⟩
+    rw [mapEntries_allocMap]
+    intro e he
+    have he' : e ∈ insert (s.heap.mapEntries ((a.maps[k']?).getD none)) name (allocSlice E s.heap data sp).2 := by
+      split at he
+      · exact mem_erase he
+      · exact he
+    rcases mem_insert he' with h1 | h1
+    · exact ⟨.elem 0 (3 + k'), by simp, a, rfl, by omega, e, by simpa [kindOf] using h1, rfl⟩
+    · subst h1
+      exact ⟨.fresh, by simp, Or.inl (by simp [allocSlice])⟩
+  · rw [if_neg (by omega), if_neg e]; rfl
+
+theorem real_copyAttr (E : Env α) (s : State κ α) (m src k : Nat) (name : κ) (h' : Heap κ α) (rs : List MeshRep)
+    (ha : (Op.copyAttr m src k name : Op κ α).apply E s = some (h', rs)) :
+    ∃ a q, s.pool[m]? = some a ∧ s.pool[src]? = some q ∧ ∃ r, rs = [r] ∧
+      (k < a.maps.length → Realises (Cls.copyAttr k).spec s.heap [a, q] h' r) := by
+  simp only [Op.apply, Option.bind_eq_bind, Option.bind_eq_some_iff, Option.pure_def, Option.some.injEq, Prod.mk.injEq] at ha
+  obtain ⟨a, hr, q, hq, rfl, rfl⟩ := ha
+  refine ⟨a, q, hr, hq, _, rfl, fun hk => ?_⟩
+  apply realises_sharedExcept (f := 3 + k) <;> try (first | rfl | (rw [if_neg (by omega)]) | omega)
+  intro k' hk'
+  rw [kindOf_setKind a.maps a k _ k' hk]
+  by_cases e : k' = k
+  · subst e
+    rw [if_pos rfl, if_pos rfl]
+    refine ⟨.fresh, by simp, _, rfl, by simp [Heap.allocMap], ?_⟩
+    rw [mapEntries_allocMap]
+    intro e he
+    generalize hd : (lookup (s.heap.mapEntries ((q.maps[k']?).getD none)) name).getD Slice.nil = d at he
+    have he' : e ∈ insert (s.heap.mapEntries ((a.maps[k']?).getD none)) name d := by
+      split at he
+      · exact mem_erase he
+      · exact he
+    rcases mem_insert he' with h1 | h1
+    · exact ⟨.elem 0 (3 + k'), by simp, a, rfl, by omega, e, by simpa [kindOf] using h1, rfl⟩
+    · subst h1
+      cases hl : lookup (s.heap.mapEntries ((q.maps[k']?).getD none)) name with
+      | none =>
+        rw [hl] at hd; simp only [Option.getD_none] at hd; subst hd
+        exact ⟨.nil, by simp, rfl⟩
+      | some c =>
+        rw [hl] at hd; simp only [Option.getD_some] at hd; subst hd
+        obtain ⟨e', he1, he2⟩ := lookup_mem hl
+        exact ⟨.elem 1 (3 + k'), by simp, q, rfl, by omega, e', by simpa [kindOf] using he1, he2⟩
+  · rw [if_neg (by omega), if_neg e]; rfl
+
+/-- a list of maps all allocated by this operation: each kind is such a map, or absent (the nil map) -/
+theorem maps_fresh_or_nil {h h' : Heap κ α} {args : List MeshRep} {ms : List (Option Nat)} {ent : List Src} (he : Src.fresh ∈ ent)
+    (fm : ∀ m ∈ ms, FreshMap h.arrays.length h.maps.length h' m) (k : Nat) :
+    MapFrom h h' args k ent ((ms[k]?).getD none) .fresh ∨ (MapFrom h h' args k ent ((ms[k]?).getD none) .nil ∧ ms.length ≤ k) := by
+  cases hk : ms[k]? with
+  | none => exact Or.inr ⟨rfl, by simpa using hk⟩
+  | some m => exact Or.inl (fresh_of_freshMap rfl rfl he (fm m (List.mem_of_getElem? hk)))
+
+theorem real_rebuild (E : Env α) (s : State κ α) (m topo : Nat) (idx : List α) (isp : Nat) (attrs : List (List (κ × List α × Nat)))
+    (mm : MatMode) (h' : Heap κ α) (rs : List MeshRep)
+    (ha : (Op.rebuild m topo idx isp attrs mm : Op κ α).apply E s = some (h', rs)) :
+    ∃ a, s.pool[m]? = some a ∧ ∃ r, rs = [r] ∧ Realises (Cls.rebuild mm).spec s.heap [a] h' r := by
+  simp only [Op.apply, Option.bind_eq_bind, Option.bind_eq_some_iff, Option.pure_def, Option.some.injEq, Prod.mk.injEq] at ha
+  obtain ⟨a, hr, rfl, rfl⟩ := ha
+  obtain ⟨f1, _, _⟩ := allocSlice_spec (κ := κ) E (Nat.le_refl s.heap.arrays.length) idx isp
+  have fm := allocMaps_fresh (mbase := s.heap.maps.length) E attrs f1.base_le' f1.msize_le
+  refine ⟨a, hr, _, rfl, ?_, ?_, ?_, ?_⟩
+  · exact ⟨.val, by simp [specObj, Cls.spec], trivial⟩
+  · exact ⟨.fresh, by simp [specObj, Cls.spec], Or.inl (by simp [allocSlice])⟩
+  · cases mm with
+    | share => exact ⟨.recv 0 2, by simp [specObj, Cls.spec, shared], rfl, a, rfl, rfl⟩
+    | drop => exact ⟨.nil, by simp [specObj, Cls.spec], rfl⟩
+  · intro k hk
+    have hs : specObj (Cls.rebuild mm).spec (3 + k) = [.fresh, .nil] ∧ specEnt (Cls.rebuild mm).spec (3 + k) = [.fresh] := by
+      have : k = 0 ∨ k = 1 ∨ k = 2 ∨ k = 3 := by omega
+      rcases this with rfl | rfl | rfl | rfl <;> simp [specObj, specEnt, Cls.spec]
+    rw [hs.1, hs.2]
+    rcases maps_fresh_or_nil (args := [a]) (ent := [.fresh]) (by simp) fm k with h1 | h1
+    · exact ⟨.fresh, by simp, h1⟩
+    · exact ⟨.nil, by simp, h1.1⟩
+
+theorem real_newMesh (E : Env α) (s : State κ α) (topo : Nat) (idx : List α) (isp : Nat) (mats : List α) (msp : Nat)
+    (attrs : List (List (κ × List α × Nat))) (h' : Heap κ α) (rs : List MeshRep)
+    (ha : (Op.newMesh topo idx isp mats msp attrs : Op κ α).apply E s = some (h', rs)) :
+    ∃ r, rs = [r] ∧ Realises (Cls.newMesh).spec s.heap [] h' r := by
+  simp only [Op.apply, Option.some.injEq, Prod.mk.injEq] at ha
+  obtain ⟨rfl, rfl⟩ := ha
+  obtain ⟨f1, _, _⟩ := allocSlice_spec (κ := κ) E (Nat.le_refl s.heap.arrays.length) idx isp
+  obtain ⟨f2, fr2, _⟩ := allocSlice_spec (κ := κ) E f1.base_le' mats msp
+  have fm := allocMaps_fresh (mbase := s.heap.maps.length) E attrs (f1.trans f2).base_le' (f1.trans f2).msize_le
+  refine ⟨_, rfl, ?_, ?_, ?_, ?_⟩
+  · exact ⟨.val, by simp [specObj, Cls.spec], trivial⟩
+  · exact ⟨.fresh, by simp [specObj, Cls.spec], Or.inl (by simp [allocSlice])⟩
+  · exact ⟨.fresh, by simp [specObj, Cls.spec], fr2⟩
+  · intro k hk
+    have hs : specObj (Cls.newMesh).spec (3 + k) = [.fresh, .nil] ∧ specEnt (Cls.newMesh).spec (3 + k) = [.fresh, .nil] := by
+      have : k = 0 ∨ k = 1 ∨ k = 2 ∨ k = 3 := by omega
+      rcases this with rfl | rfl | rfl | rfl <;> simp [specObj, specEnt, Cls.spec]
+    rw [hs.1, hs.2]
+    rcases maps_fresh_or_nil (args := []) (ent := [.fresh, .nil]) (by simp) fm k with h1 | h1
+    · exact ⟨.fresh, by simp, h1⟩
+    · exact ⟨.nil, by simp, h1.1⟩
+
+theorem real_append (E : Env α) (s : State κ α) (m o aLen bLen : Nat) (h' : Heap κ α) (rs : List MeshRep)
+    (ha : (Op.append m o aLen bLen : Op κ α).apply E s = some (h', rs)) :
+    ∃ a q, s.pool[m]? = some a ∧ s.pool[o]? = some q ∧ ∃ r, rs = [r] ∧
+      (4 ≤ a.maps.length → Realises (Cls.append).spec s.heap [a, q] h' r) := by
+  simp only [Op.apply, Option.bind_eq_bind, Option.bind_eq_some_iff, Option.pure_def, Option.some.injEq, Prod.mk.injEq] at ha
+  obtain ⟨a, hr, q, hq, x, hx, rfl, rfl⟩ := ha
+  obtain ⟨t0, fi, fmat, lm, fm⟩ := appendCopy_fresh E (h' := x.1) (r := x.2) hx
+  refine ⟨a, q, hr, hq, _, rfl, fun h4 => ⟨?_, ?_, ?_, ?_⟩⟩
+  · exact ⟨.recv 0 0, by simp [specObj, Cls.spec, shared], rfl, a, rfl, t0⟩
+  · exact ⟨.fresh, by simp [specObj, Cls.spec], fi⟩
+  · exact ⟨.fresh, by simp [specObj, Cls.spec], fmat⟩
+  · intro k hk
+    have hs : specObj (Cls.append).spec (3 + k) = [.fresh] ∧ specEnt (Cls.append).spec (3 + k) = [.fresh] := by
+      have : k = 0 ∨ k = 1 ∨ k = 2 ∨ k = 3 := by omega
+      rcases this with rfl | rfl | rfl | rfl <;> simp [specObj, specEnt, Cls.spec]
+    rw [hs.1, hs.2]
+    rcases maps_fresh_or_nil (args := [a, q]) (ent := [.fresh]) (by simp) fm k with h1 | h1
+    · exact ⟨.fresh, by simp, h1⟩
+    · omega
+
+/-! ### the theorem -/
+
+theorem real_readOnly (E : Env α) (s : State κ α) (m : Nat) (h' : Heap κ α) (rs : List MeshRep)
+    (ha : (Op.readOnly m : Op κ α).apply E s = some (h', rs)) :
+    ∃ a, s.pool[m]? = some a ∧ h' = s.heap ∧ rs = [] := by
+  simp only [Op.apply, Option.bind_eq_bind, Option.bind_eq_some_iff, Option.pure_def, Option.some.injEq, Prod.mk.injEq] at ha
+  obtain ⟨a, hr, rfl, rfl⟩ := ha
+  exact ⟨a, hr, rfl, rfl⟩
+
+/-- the meshes at pool positions `ps` -/
+def argsOf (s : State κ α) : List Nat → Option (List MeshRep)
+  | [] => some []
+  | p :: ps => match s.pool[p]?, argsOf s ps with
+    | some a, some as => some (a :: as)
+    | _, _ => none
+
+/-- the attribute kind of a class is one of v1Data..v4Data -/
+def _root_.PolyVerif.MeshClasses.Cls.kindOK : Cls → Bool
+  | .setData k | .setAttr k | .copyAttr k => decide (k < 4)
+  | _ => true
+
+/-- THE MODEL'S OPERATION OF A CLASS SHARES / ALLOCATES EXACTLY WHAT THE CLASS SUMMARY SAYS, in every state:
+    whenever an operation of class `c` succeeds, its mesh arguments exist and the mesh it returns `Realises c.spec` — each
+    component is the very slice header / map object of the argument the summary names, or lies in memory allocated by this
+    operation (and, for new maps, every entry is one of the argument's entries or new memory, as the summary says).
+    A read-only operation returns no new mesh and leaves the heap as it is; the Go function returns its receiver, which
+    realises "everything shared" trivially. -/
+theorem class_realises (E : Env α) (s : State κ α) (op : Op κ α) (c : Cls) (ps : List Nat)
+    (hc : opClass op = some (c, ps)) (h' : Heap κ α) (rs : List MeshRep) (ha : op.apply E s = some (h', rs))
+    (h4 : ∀ a ∈ s.pool, a.maps.length = 4) (hk : c.kindOK = true) :
+    ∃ args, argsOf s ps = some args ∧
+      if c = .readOnly then h' = s.heap ∧ rs = [] ∧ ∀ a ∈ args.head?, Realises c.spec s.heap args h' a
+      else ∃ r, rs = [r] ∧ Realises c.spec s.heap args h' r := by
+  cases op with
+  | newMesh topo idx isp mats msp attrs =>
+    simp only [opClass, Option.some.injEq, Prod.mk.injEq] at hc
+    obtain ⟨rfl, rfl⟩ := hc
+    exact ⟨[], rfl, by simpa using real_newMesh E s topo idx isp mats msp attrs h' rs ha⟩
+  | setIndices m idx sp =>
+    simp only [opClass, Option.some.injEq, Prod.mk.injEq] at hc
+    obtain ⟨rfl, rfl⟩ := hc
+    obtain ⟨a, hr, r, e, hR⟩ := real_setIndices E s m idx sp h' rs ha
+    exact ⟨[a], by simp [argsOf, hr], by simpa using ⟨r, e, hR⟩⟩
+  | setMaterials m mats sp =>
+    simp only [opClass, Option.some.injEq, Prod.mk.injEq] at hc
+    obtain ⟨rfl, rfl⟩ := hc
+    obtain ⟨a, hr, r, e, hR⟩ := real_setMaterials E s m mats sp h' rs ha
+    exact ⟨[a], by simp [argsOf, hr], by simpa using ⟨r, e, hR⟩⟩
+  | shareMaterials m src => simp [opClass] at hc
+  | toPointCloud m pt n =>
+    simp only [opClass, Option.some.injEq, Prod.mk.injEq] at hc
+    obtain ⟨rfl, rfl⟩ := hc
+    obtain ⟨a, hr, r, e, hR⟩ := real_toPointCloud E s m pt n h' rs ha
+    exact ⟨[a], by simp [argsOf, hr], by simpa using ⟨r, e, hR⟩⟩
+  | clearAttrs m =>
+    simp only [opClass, Option.some.injEq, Prod.mk.injEq] at hc
+    obtain ⟨rfl, rfl⟩ := hc
+    obtain ⟨a, hr, r, e, hR⟩ := real_clearAttrs E s m h' rs ha
+    exact ⟨[a], by simp [argsOf, hr], by simpa using ⟨r, e, hR⟩⟩
+  | setData m k es =>
+    simp only [opClass, Option.some.injEq, Prod.mk.injEq] at hc
+    obtain ⟨rfl, rfl⟩ := hc
+    obtain ⟨a, hr, r, e, hR⟩ := real_setData E s m k es h' rs ha
+    have hk' : k < a.maps.length := by rw [h4 a (List.mem_of_getElem? hr)]; simpa [Cls.kindOK] using hk
+    exact ⟨[a], by simp [argsOf, hr], by simpa using ⟨r, e, hR hk'⟩⟩
+  | setAttr m k name data sp =>
+    simp only [opClass, Option.some.injEq, Prod.mk.injEq] at hc
+    obtain ⟨rfl, rfl⟩ := hc
+    obtain ⟨a, hr, r, e, hR⟩ := real_setAttr E s m k name data sp h' rs ha
+    have hk' : k < a.maps.length := by rw [h4 a (List.mem_of_getElem? hr)]; simpa [Cls.kindOK] using hk
+    exact ⟨[a], by simp [argsOf, hr], by simpa using ⟨r, e, hR hk'⟩⟩
+  | copyAttr m src k name =>
+    simp only [opClass, Option.some.injEq, Prod.mk.injEq] at hc
+    obtain ⟨rfl, rfl⟩ := hc
+    obtain ⟨a, q, hr, hq, r, e, hR⟩ := real_copyAttr E s m src k name h' rs ha
+    have hk' : k < a.maps.length := by rw [h4 a (List.mem_of_getElem? hr)]; simpa [Cls.kindOK] using hk
+    exact ⟨[a, q], by simp [argsOf, hr, hq], by simpa using ⟨r, e, hR hk'⟩⟩
+  | rebuild m topo idx isp attrs mm =>
+    simp only [opClass, Option.some.injEq, Prod.mk.injEq] at hc
+    obtain ⟨rfl, rfl⟩ := hc
+    obtain ⟨a, hr, r, e, hR⟩ := real_rebuild E s m topo idx isp attrs mm h' rs ha
+    exact ⟨[a], by simp [argsOf, hr], by simpa using ⟨r, e, hR⟩⟩
+  | readOnly m =>
+    simp only [opClass, Option.some.injEq, Prod.mk.injEq] at hc
+    obtain ⟨rfl, rfl⟩ := hc
+    obtain ⟨a, hr, e1, e2⟩ := real_readOnly E s m h' rs ha
+    refine ⟨[a], by simp [argsOf, hr], ?_⟩
+    simp only [if_true]
+    refine ⟨e1, e2, ?_⟩
+    intro b hb
+    simp only [List.head?_cons, Option.mem_def, Option.some.injEq] at hb
+    subst hb
+    exact realises_self s.heap h' _ []
+  | append m o aLen bLen =>
+    simp only [opClass, Option.some.injEq, Prod.mk.injEq] at hc
+    obtain ⟨rfl, rfl⟩ := hc
+    obtain ⟨a, q, hr, hq, r, e, hR⟩ := real_append E s m o aLen bLen h' rs ha
+    have h4' : 4 ≤ a.maps.length := by rw [h4 a (List.mem_of_getElem? hr)]; exact Nat.le_refl 4
+    exact ⟨[a, q], by simp [argsOf, hr, hq], by simpa using ⟨r, e, hR h4'⟩⟩
+  | appendOld m o aLen bLen => simp [opClass] at hc
+
+/-- non-vacuity: a concrete state (one mesh, four kinds, one attribute), a `setAttr` on it that succeeds; all hypotheses of
+    `class_realises` hold -/
+example : ∃ (h' : Heap Nat Nat) (rs : List MeshRep),
+    let E : Env Nat := ⟨0, fun n x => x + n, id, fun _ _ => 0⟩
+    let s : State Nat Nat := ⟨⟨[[1, 2, 3]], [[(0, ⟨0, 0, 3, 3⟩)]]⟩, [⟨0, Slice.nil, Slice.nil, [some 0, none, none, none]⟩]⟩
+    (Op.setAttr 0 0 5 [7, 8, 9] 0 : Op Nat Nat).apply E s = some (h', rs) ∧ (∀ a ∈ s.pool, a.maps.length = 4) ∧
+      opClass (Op.setAttr 0 0 5 [7, 8, 9] 0 : Op Nat Nat) = some (.setAttr 0, [0]) ∧ (Cls.setAttr 0).kindOK = true :=
+  ⟨_, _, rfl, by decide, rfl, rfl⟩
+
+end realises
 
 end C01
 end PolyVerif
